@@ -62,4 +62,11 @@ def largestPowerOfTwoBelow (n : Int) : Int :=
   let power := largestPowerOfTwoBelow_loop1 (64) n power
   power
 
+/-- translated from consensus/selection.go:214 `IsDeepFork` -/
+def isDeepFork (p_SecurityParam : Int) (fork_Slot : Int) (fork_BlockNumber : Int) (tipBlockNumber : Int) : Bool :=
+  if decide (tipBlockNumber ≤ fork_BlockNumber) then
+    false
+  else
+    decide (wrapU 64 (tipBlockNumber - fork_BlockNumber) > p_SecurityParam)
+
 end GV.Gen.GoLite
